@@ -2,6 +2,7 @@ import Bpmn.Props.C01
 import Bpmn.Props.EngineCurrent
 import Bpmn.Props.C01Conformance
 import Bpmn.Props.C01Chain
+import Bpmn.Props.C01FragmentCurrent
 open Bpmn.Props.C01 Bpmn.Props.EngineCurrent Bpmn.Props.C01Conformance
 #print axioms selectFlows_spec
 #print axioms forkToks_spec
@@ -27,3 +28,11 @@ open Bpmn.Props.C01 Bpmn.Props.EngineCurrent Bpmn.Props.C01Conformance
 #print axioms Bpmn.Props.C01Chain.chain_start
 #print axioms Bpmn.Props.C01Chain.chain_conformance
 #print axioms Bpmn.Props.C01Chain.chain_matches_token_game
+#print axioms Bpmn.Props.C01Fragment.fragment_never_deviates
+#print axioms Bpmn.Props.C01Fragment.fragment_conformance
+#print axioms Bpmn.Props.C01Fragment.noIncl_never_deviates
+#print axioms Bpmn.Props.C01Fragment.noIncl_conformance
+#print axioms Bpmn.Props.C01Fragment.noIncl_hypothesis_needed
+#print axioms Bpmn.Props.C01FragmentCurrent.current_repaired
+#print axioms Bpmn.Props.C01FragmentCurrent.current_noIncl_conformance
+#print axioms Bpmn.Props.C01FragmentCurrent.current_noIncl_never_deviates
